@@ -82,6 +82,12 @@ CLAIMED = {
   "note": "PARTIAL: invariance of whole-program results under re-partition into blocks, label renaming and block comments, and the interaction of the look-ahead cut with blanks, are established by the metamorphic search and the model correspondence, not by theorems. Known findings: F10 (blank inside the leading literal), F22 (an added blank enables a rule whose pattern spells one). Trusted: Lean kernel + three standard axioms; token tables re-extracted on every run; whole-assembler model tied by differential execution on every spelling.",
   "technique": "Lean 4 proof (tokenizer/walker lemmas, permutation, max-filter) + metamorphic search on the implementation + model correspondence",
  },
+ "C15": {
+  "text": "Lean 4 theorems about the model of SymbolManager and eval_variable (Casm/Props/C15.lean): lookup_determined_by_level_prefix (what a reference denotes depends on the point of use only through the first `level` components of the context, i.e. the enclosing declarations down to the dot-level), lookup_skipping_level_is_unknown, declare_skipping_level_is_error, declare_duplicate_is_error, declare_appends (fresh index, no renumbering), reference_sees_whole_table (evaluation consults the complete declaration table built before any evaluation, so use-before-declaration equals use-after). Search and tie: label trees to depth 4 with local names repeated under different parents, local/global constants (literal, chained in any order, address-valued), references from every position at every dot-level and through dotted paths emitted by #d16, by an untyped operand and by a size-switching instruction, and five kinds of faults; expected bits and every symbol value are computed by a Python scope walker written from the statement; implementation and model run on every program and on a twin with one address-free global constant moved.",
+  "design_ref": "DESIGN.md section 6, C15",
+  "note": "PARTIAL: the refinement 'the table maps full dotted paths to declarations' (lookup_refines_scope) is established by the search against the scope walker, not yet by a theorem. Known finding F16: the context follows every symbol, constants included (programs where the two readings differ are compared with the second reading exactly). Trusted: Lean kernel + three standard axioms; whole-assembler model tied by differential execution.",
+  "technique": "Lean 4 proof (case analysis on the table operations) + scope-walker oracle on the implementation + model correspondence",
+ },
 }
 
 NOT_YET = {}
